@@ -669,6 +669,16 @@ impl<T: Inst> Run<T> {
         (v, tag)
     }
 
+    fn preload(&mut self, n: usize) {
+        for k in 0..n as u32 {
+            let key = T::key(k);
+            let (val, tag) = self.fresh((k as usize % 2).min(T::VSEL - 1));
+            let size = esize::<T>(&key, &val);
+            let _ = self.c.insert(key, val);
+            self.m.l.push(RE { id: k, tag, size, actual: size });
+        }
+    }
+
     /// after cloning: the clone's instances may have other size estimates than
     /// the originals (the accounted sizes are copied)
     fn refresh_actual(&mut self) {
@@ -1156,6 +1166,9 @@ struct Job {
     label: &'static str,
     /// Some: explore only these operations (deep jobs over a core alphabet)
     alpha: Option<Vec<IOp>>,
+    /// the cache starts with this many fresh entries (keys 0..n, alternating sizes), inserted
+    /// without a per-step reference check (the small fills check every step)
+    preload: usize,
     /// position in the deterministic job list (containment records)
     id: u32,
     /// 0 = differential, 1 = fault injection
@@ -1246,8 +1259,9 @@ fn record(job: &Job, name: &str, seq: &[IOp], fault: Option<(Cb, u32)>) -> Vec<u
     let name = &name.as_bytes()[..name.len().min(120)];
     v.push(name.len() as u8);
     v.extend_from_slice(name);
-    v.push(job.label.len() as u8);
-    v.extend_from_slice(job.label.as_bytes());
+    let label = if job.preload > 0 { format!("{} ({} entries preloaded)", job.label, job.preload) } else { job.label.to_string() };
+    v.push(label.len() as u8);
+    v.extend_from_slice(label.as_bytes());
     v.push(job.hk as u8);
     v.push((job.limit == 0) as u8);
     for op in job.prefix.iter().take(40) {
@@ -1419,6 +1433,7 @@ fn run_seq<T: Inst>(job: &Job, sm: [usize; 5], seq: &[IOp], out: &mut InstResult
             problems.push((p(19), "C19.object-bytes", "an operation on a shared reference changed the bytes of the cache object itself".to_string()));
         }
         let mut run: Run<T> = Run::new(if job.limit == 0 { usize::MAX } else { job.limit }, job.cap, job.hk, sm);
+        run.preload(job.preload);
         for op in &job.prefix {
             let _ = run.step(*op);
         }
@@ -1589,7 +1604,7 @@ fn run_seq<T: Inst>(job: &Job, sm: [usize; 5], seq: &[IOp], out: &mut InstResult
                     job.hk.name(),
                     if job.limit == usize::MAX { "limit usize::MAX" } else { "limit set to exactly the current size after the prefix (empty prefix: one small + one large entry)" },
                     job.cap,
-                    if job.prefix.is_empty() { String::new() } else { format!("prefix {} = {:?} then ", job.label, job.prefix) },
+                    if job.preload > 0 { format!("{} fresh entries (keys 0..{}, sizes alternating) then ", job.preload, job.preload) } else if job.prefix.is_empty() { String::new() } else { format!("prefix {} = {:?} then ", job.label, job.prefix) },
                     seq,
                     detail
                 ),
@@ -1650,7 +1665,7 @@ fn run_job<T: Inst>(job: Job) -> InstResult {
 }
 
 /// All instantiations x {constant, spread} hasher x {unbounded, tight} start.
-pub fn explore(depth: usize, ladder: usize, deep: usize, threads: usize, skips: &[(String, String)]) -> InstResult {
+pub fn explore(depth: usize, ladder: usize, deep: usize, huge: &[usize], threads: usize, skips: &[(String, String)]) -> InstResult {
     let skips = std::sync::Arc::new(skips.to_vec());
     type JobFn = Box<dyn FnOnce() -> InstResult + Send>;
     let mut jobs: Vec<JobFn> = vec![];
@@ -1669,7 +1684,7 @@ pub fn explore(depth: usize, ladder: usize, deep: usize, threads: usize, skips: 
                 }
                 for (label, prefix) in &prefixes {
                     for (limit, cap) in [(usize::MAX, None), (0usize, Some(3usize))] {
-                        let job = Job { hk, limit, cap, depth, prefix: prefix.clone(), second_after: None, label, alpha: None, id: jobs.len() as u32, mode: 0, skips: skips.clone() };
+                        let job = Job { hk, limit, cap, depth, prefix: prefix.clone(), second_after: None, label, alpha: None, preload: 0, id: jobs.len() as u32, mode: 0, skips: skips.clone() };
                         jobs.push(Box::new(move || run_job::<$t>(job)));
                     }
                 }
@@ -1686,6 +1701,7 @@ pub fn explore(depth: usize, ladder: usize, deep: usize, threads: usize, skips: 
                             second_after: Some(vec![CloneSwap, CloneFrom(0), CloneFrom(1), CloneFrom(2), CloneFrom(3)]),
                             label: "ladder",
                             alpha: None,
+                            preload: 0,
                             id: jobs.len() as u32,
                             mode: 0,
                             skips: skips.clone(),
@@ -1717,7 +1733,7 @@ pub fn explore(depth: usize, ladder: usize, deep: usize, threads: usize, skips: 
                 for (limit, cap) in [(usize::MAX, None), (0usize, Some(3usize))] {
                     // one job per first operation, for parallelism
                     for first in &core {
-                        let job = Job { hk, limit, cap, depth: deep - 1, prefix: vec![*first], second_after: None, label: "first operation", alpha: Some(core.clone()), id: jobs.len() as u32, mode: 0, skips: skips.clone() };
+                        let job = Job { hk, limit, cap, depth: deep - 1, prefix: vec![*first], second_after: None, label: "first operation", alpha: Some(core.clone()), preload: 0, id: jobs.len() as u32, mode: 0, skips: skips.clone() };
                         jobs.push(Box::new(move || run_job::<$t>(job)));
                     }
                 }
@@ -1734,13 +1750,21 @@ pub fn explore(depth: usize, ladder: usize, deep: usize, threads: usize, skips: 
                     let prefix: Vec<IOp> = (0..n as u32).map(|k| Insert(k, (k % 2) as usize)).collect();
                     let mut alpha = core.clone();
                     alpha.extend([Insert(n as u32, 0), Remove(n as u32 - 1), Get(n as u32 / 2), Reserve, Retain(1)]);
-                    let job = Job { hk, limit, cap, depth: deep - 2, prefix, second_after: None, label: "filled", alpha: Some(alpha), id: jobs.len() as u32, mode: 0, skips: skips.clone() };
+                    let job = Job { hk, limit, cap, depth: deep - 2, prefix, second_after: None, label: "filled", alpha: Some(alpha), preload: 0, id: jobs.len() as u32, mode: 0, skips: skips.clone() };
                     jobs.push(Box::new(move || run_job::<U64View>(job)));
                 }
             }
         }
     }
     jobs.reverse();
+    // very large fills (thresholds at powers of two up to 2^16 and beyond): every operation once
+    for hk in [HK::Spread, HK::Sip] {
+        for n in huge.iter().copied() {
+            // the longest jobs are started first (the queue is popped from the end)
+            let job = Job { hk, limit: usize::MAX, cap: None, depth: 1, prefix: vec![], second_after: None, label: "huge", alpha: None, preload: n, id: jobs.len() as u32, mode: 0, skips: skips.clone() };
+            jobs.push(Box::new(move || run_job::<U64View>(job)));
+        }
+    }
     run_jobs(jobs, threads)
 }
 
@@ -1777,6 +1801,7 @@ const FAULT_KINDS: [Cb; 9] = [Cb::HashK, Cb::HashQ, Cb::Eq, Cb::CloneK, Cb::Clon
 
 fn build_run<T: Inst>(job: &Job, sm: [usize; 5], seq: &[IOp]) -> Run<T> {
     let mut run: Run<T> = Run::new(if job.limit == 0 { usize::MAX } else { job.limit }, job.cap, job.hk, sm);
+    run.preload(job.preload);
     for op in &job.prefix {
         let _ = run.step(*op);
     }
@@ -2068,7 +2093,7 @@ pub fn explore_faults(depth: usize, ladder_sizes: &[usize], threads: usize, skip
                 }
                 for (label, prefix) in &prefixes {
                     for (limit, cap) in [(usize::MAX, None), (0usize, Some(3usize))] {
-                        let job = Job { hk, limit, cap, depth, prefix: prefix.clone(), second_after: None, label, alpha: None, id: jobs.len() as u32, mode: 1, skips: skips.clone() };
+                        let job = Job { hk, limit, cap, depth, prefix: prefix.clone(), second_after: None, label, alpha: None, preload: 0, id: jobs.len() as u32, mode: 1, skips: skips.clone() };
                         jobs.push(Box::new(move || fault_job::<$t>(job)));
                     }
                 }
@@ -2089,7 +2114,7 @@ pub fn explore_faults(depth: usize, ladder_sizes: &[usize], threads: usize, skip
             for hk in [HK::Const, HK::Spread] {
                 for n in ladder_sizes.iter().copied() {
                     let prefix: Vec<IOp> = (0..n as u32).map(|k| Insert(k, (k % 2) as usize)).collect();
-                    let job = Job { hk, limit: usize::MAX, cap: None, depth: 1, prefix, second_after: None, label: "ladder", alpha: Some(walkers.clone()), id: jobs.len() as u32, mode: 1, skips: skips.clone() };
+                    let job = Job { hk, limit: usize::MAX, cap: None, depth: 1, prefix, second_after: None, label: "ladder", alpha: Some(walkers.clone()), preload: 0, id: jobs.len() as u32, mode: 1, skips: skips.clone() };
                     jobs.push(Box::new(move || fault_job::<$t>(job)));
                 }
             }
